@@ -5,8 +5,14 @@ import (
 )
 
 func subset(a, b rel.Value) bool {
-	s := a.(rel.Set)
-	t := b.(rel.Set)
+	s, ok := a.(rel.Set)
+	if !ok {
+		return false
+	}
+	t, ok := b.(rel.Set)
+	if !ok {
+		return false
+	}
 	if t.Count() == 0 {
 		return false
 	}
@@ -19,8 +25,14 @@ func subset(a, b rel.Value) bool {
 }
 
 func subsetOrEqual(a, b rel.Value) bool {
-	s := a.(rel.Set)
-	t := b.(rel.Set)
+	s, ok := a.(rel.Set)
+	if !ok {
+		return false
+	}
+	t, ok := b.(rel.Set)
+	if !ok {
+		return false
+	}
 	if t.Count() == 0 {
 		return s.Count() == 0
 	}
